@@ -45,6 +45,35 @@ def run(tier):
                         nontrivial=lambda b: any(s["op"] == "compact" for s in b["steps"]))
     c.sample({"behaviour_ops": [s["op"] for s in beh[0]["steps"]], "first_request": beh[0]["steps"][0].get("req")})
 
+    # ---- sizes ("any keys/sizes"): behaviours that publish the content named c and compact afterwards, replayed with c as
+    # a text of 2.4 MB - log and snapshot records larger than 2 MiB (more than one read of a file returns)
+    def big_ok(b):
+        seen = False
+        for s_ in b["steps"]:
+            rs = [s_["req"]] if s_["op"] == "apply" else s_.get("reqs", []) if s_["op"] == "apply_batch" else []
+            if any(r.get("t") == "cfg_set" and r.get("v") == "c" for r in rs):
+                seen = True
+            if seen and s_["op"] == "compact":
+                return True
+        return False
+    bigb = [b for b in beh if big_ok(b)][: (8 if quick else 60)]
+    if len(bigb) < 4:
+        raise ToolError("too few behaviours that publish content c before a compaction: %d" % len(bigb))
+    bres = vlib.harness(["replay", "sm", vlib.write_ndjson(os.path.join(sc, "beh_big.ndjson"), bigb), "--mode", "c01", "--jobs", 4],
+                        timeout=6000, env={"RNVERIF_BIG": "c=2400000"})
+    bsumm = [r for r in bres if r.get("kind") == "summary"][0]
+    if bsumm.get("tool_errors", 0) > len(bigb) // 4:
+        raise ToolError("big-record leg: too many mini-node tool errors: %s" % bsumm)
+    for r in bres:
+        if r.get("kind") == "result" and not r["ok"]:
+            c.violation(keyfn(bigb[r["i"]], r) + "+2.4MB_content",
+                        "state machine on mini node, content c = 2.4 MB: %s (expected %s, got %s) at step %s" %
+                        (r.get("what"), vlib.json.dumps(r.get("expected"))[:500], vlib.json.dumps(r.get("actual"))[:500], r.get("step")),
+                        {"behaviour": bigb[r["i"]], "env": {"RNVERIF_BIG": "c=2400000"},
+                         "mismatch": {k: (v if len(vlib.json.dumps(v)) < 2000 else "(large)") for k, v in r.items()}})
+    c.cov["behaviours_replayed_with_2.4MB_records"] = len(bigb)
+    c.traces(len(bigb))
+
     sm_common.transfer_leg(c, sc, [b for b in beh if b.get("alphabet") != "mcp_thin"][: (40 if quick else 600)], "transfer_c01",
                            lambda b, r: "C01:import:%s" % r.get("what", "").replace(" ", "_"))
     exact_fit_leg(c, sc)
